@@ -152,6 +152,9 @@ func (fr *Frame) callStatic(site ssa.Instruction, fn *ssa.Function, args []*Term
 	if fc == nil {
 		fc = vc.eng.db.funcs[fn.String()]
 	}
+	if fc == nil {
+		fc = vc.eng.db.funcs[stripTypeParams(name)]
+	}
 	if fc != nil {
 		var names []string
 		var tys []types.Type
@@ -265,9 +268,11 @@ func (fr *Frame) applyContract(fc *FuncContract, site ssa.Instruction, obj *type
 	if pkg == nil {
 		pkg = vc.eng.pkgTypes("spine")
 	}
+	assuming := false
 	mk := func(cur *State) *EvalCtx {
 		ctx := &EvalCtx{vc: vc, st: cur, old: pre, inst: inst, fc: fc, pkg: pkg, bound: map[string]TV{}}
 		ctx.atCallSite = true
+		ctx.assuming = assuming
 		ctx.lookup = func(name string) (Binding, bool) {
 			b, ok := binds[name]
 			return b, ok
@@ -323,6 +328,7 @@ func (fr *Frame) applyContract(fc *FuncContract, site ssa.Instruction, obj *type
 			out = append(out, vc.fresh("r", vc.sortOf(res.At(i).Type())))
 		}
 	}
+	assuming = true
 	for i := 0; i < res.Len(); i++ {
 		vc.assume(st.guard, vc.ptrFacts(st, res.At(i).Type(), out[i], 0))
 		n := res.At(i).Name()
@@ -552,6 +558,10 @@ func (fr *Frame) callModifies(c *ssa.CallCommon, set map[string]bool) {
 			addFC(fc)
 			return
 		}
+		if fc := vc.eng.db.funcs[stripTypeParams(name)]; fc != nil {
+			addFC(fc)
+			return
+		}
 		// inlined: union of its instructions (transitively)
 		fr.fnModifies(callee, set, 0)
 	case *ssa.MakeClosure:
@@ -580,7 +590,7 @@ func (fr *Frame) fnModifies(fn *ssa.Function, set map[string]bool, depth int) {
 				if callee, ok := c.Call.Value.(*ssa.Function); ok && !c.Call.IsInvoke() {
 					name := calleeName(callee)
 					_, sp := specialMods[name]
-					if fr.vc.eng.db.funcs[name] == nil && !sp && !hasSpecialPrefix(name) {
+					if fr.vc.eng.db.funcs[name] == nil && fr.vc.eng.db.funcs[stripTypeParams(name)] == nil && !sp && !hasSpecialPrefix(name) {
 						fr.fnModifies(callee, set, depth+1)
 						continue
 					}
